@@ -912,3 +912,414 @@ Section Serve.
          destruct (other_method_matches m (path_segs (route_path path raw))) eqn:O; repeat split; assumption).
   Qed.
 End Serve.
+
+(* ------------------------------------------------ matching: what is captured *)
+
+(* a {name} wildcard captures one of the segments of the routed path: never a '/' *)
+Lemma matches_var_segment pat : forall segs caps k v,
+  matches pat segs = Some caps -> In (k, v) caps -> k <> [star] -> In v segs.
+Proof.
+  induction pat as [|s pat IH]; intros segs caps k v Hm Hin Hk.
+  - destruct segs; [injection Hm as <-; contradiction|discriminate].
+  - destruct segs as [|x segs']; [destruct s; discriminate|]. destruct s as [l|n|n]; cbn [matches] in Hm.
+    + destruct (beq l x); [|discriminate]. right. eapply IH; eassumption.
+    + destruct (is_nil x && is_nil segs'); [discriminate|].
+      destruct (matches pat segs') as [c|] eqn:E; [|discriminate]. injection Hm as <-.
+      destruct Hin as [Hin|Hin]; [injection Hin as _ <-; now left|]. right. eapply IH; eassumption.
+    + injection Hm as <-. destruct Hin as [Hin|[]]. injection Hin as <- _. now contradiction Hk.
+Qed.
+
+Lemma single_segment_no_slash pat rp caps k v :
+  matches pat (path_segs rp) = Some caps -> In (k, v) caps -> k <> [star] -> ~ In slash v.
+Proof.
+  intros Hm Hin Hk. pose proof (matches_var_segment _ _ _ _ _ Hm Hin Hk) as Hs.
+  unfold path_segs in Hs. destruct rp as [|c r]; [contradiction|]. destruct (Byte.eqb c slash); [|contradiction].
+  eapply split_slash_no_slash; eassumption.
+Qed.
+
+(* prefix of literals and {name} segments, then a catch-all: it takes the whole rest *)
+Lemma catchall_captures_rest pre n : forall xs caps rest,
+  matches pre xs = Some caps -> (forall m, ~ In (CatchAll m) pre) -> rest <> [] ->
+  matches (pre ++ [CatchAll n]) (xs ++ rest) = Some (caps ++ [([star], join_slash rest)]).
+Proof.
+  induction pre as [|s pre IH]; intros xs caps rest Hm Hnc Hr.
+  - destruct xs; [|discriminate]. injection Hm as <-. cbn [app]. destruct rest; [congruence|reflexivity].
+  - destruct xs as [|x xs']; [destruct s; discriminate|].
+    assert (Hnc' : forall m, ~ In (CatchAll m) pre) by (intros m H; apply (Hnc m); now right).
+    destruct s as [l|v|c]; cbn [matches app] in *.
+    + destruct (beq l x); [|discriminate]. now apply IH.
+    + destruct (is_nil x && is_nil xs') eqn:E; [discriminate|].
+      assert (E' : is_nil x && is_nil (xs' ++ rest) = false).
+      { destruct x; [|reflexivity]. cbn in *. destruct xs'; [discriminate|reflexivity]. }
+      rewrite E'. destruct (matches pre xs') as [c|] eqn:Em; [|discriminate]. injection Hm as <-.
+      now rewrite (IH _ _ _ Em Hnc' Hr).
+    + exfalso. apply (Hnc c). now left.
+Qed.
+
+Lemma empty_catchall_ok pre n xs caps :
+  matches pre xs = Some caps -> (forall m, ~ In (CatchAll m) pre) ->
+  matches (pre ++ [CatchAll n]) (xs ++ [[]]) = Some (caps ++ [([star], [])]).
+Proof. intros Hm Hnc. apply (catchall_captures_rest pre n xs caps [[]] Hm Hnc). discriminate. Qed.
+
+(* chi: a {name} wildcard does not take an empty last segment, but takes an empty inner one *)
+Lemma var_empty_last_no_match n : matches [Var n] [[]] = None.
+Proof. reflexivity. Qed.
+Lemma var_empty_inner_matches n l : matches [Var n; Lit l] [[]; l] = Some [(n, [])].
+Proof. cbn. now rewrite beq_refl. Qed.
+
+(* --------------------------------------------- the built request, end to end *)
+
+Lemma name_not_star n : name_ok n = true -> beq n [star] = false.
+Proof.
+  unfold name_ok. rewrite andb_true_iff. intros [_ H]. apply beq_neq. intros ->. discriminate H.
+Qed.
+
+Lemma rename_icaps f ip : forallb seg_wf (pat_of ip) = true -> ca_last (pat_of ip) = true ->
+  map (rename (opt_name (catchall_name (pat_of ip)))) (icaps f ip)
+  = map (fun nv : bstr * bstr => (fst nv, f (snd nv))) (values_of ip).
+Proof.
+  induction ip as [|i r IH]; [reflexivity|]. cbn [pat_of map forallb]. fold (pat_of r).
+  rewrite andb_true_iff. intros [Hi Hr] Hc.
+  destruct i as [s|n v|n v]; cbn [pat_seg icaps values_of map seg_wf ca_last] in *.
+  - replace (catchall_name (Lit s :: pat_of r)) with (catchall_name (pat_of r)) by (destruct (pat_of r); reflexivity).
+    now apply IH.
+  - replace (catchall_name (Var n :: pat_of r)) with (catchall_name (pat_of r)) by (destruct (pat_of r); reflexivity).
+    unfold rename at 1. cbn [fst snd]. rewrite (name_not_star n Hi). f_equal. now apply IH.
+  - apply is_nil_true in Hc. apply map_eq_nil in Hc. subst r. cbn. reflexivity.
+Qed.
+
+Lemma captured_matches pat wire capt : captured pat wire = Some capt ->
+  exists path raw, set_path wire = Some (path, raw) /\ is_some (matches pat (path_segs (route_path path raw))) = true.
+Proof.
+  unfold captured. destruct (set_path wire) as [[path raw]|]; [|discriminate].
+  destruct (matches pat (path_segs (route_path path raw))) eqn:E; [|discriminate].
+  intros _. exists path, raw. now rewrite E.
+Qed.
+
+(* the values Vars returns for a built request when the handler of that pattern runs *)
+Definition returned (ip : ipat) : list (bstr * bstr) :=
+  map (fun nv : bstr * bstr => (fst nv, (if forallb neutral (ivals ip) then unescape_or_id else idv) (snd nv))) (values_of ip).
+
+Section Built.
+  Variable pick : list bstr -> list route -> option route.
+  Hypothesis pick_sound : forall segs cs, match pick segs cs with Some r => In r cs | None => cs = [] end.
+
+  Lemma built_request_served m r ip ar ap :
+    wf_mux m -> In r (routes m) -> r_pat r = pat_of ip -> wf_ipat ip = true ->
+    exists o r' vs,
+      serve pick m (r_meth r) (build_url ip) [] ar ap = Some o /\
+      In r' (routes m) /\ r_meth r' = r_meth r /\
+      captured (r_pat r') (build_url ip) <> None /\
+      o_out o = Handled (r_h r') vs (goa_render (r_pat r')) /\ o_post o = goa_render (r_pat r') /\
+      (r' = r -> vs = returned ip).
+  Proof.
+    intros Hm Hin Hp Hw. pose proof (captured_build_url ip Hw) as Hcap.
+    destruct (captured_matches _ _ _ Hcap) as (path & raw & Esp & Hmatch).
+    pose proof (serve_spec pick pick_sound m (r_meth r) (build_url ip) ar ap Hm) as Hs. rewrite Esp in Hs.
+    destruct Hs as (o & Eo & _ & Hout).
+    assert (Hc : In r (cands m (r_meth r) (path_segs (route_path path raw)))).
+    { unfold cands. apply filter_In. split; [assumption|]. now rewrite method_eqb_refl, Hp, Hmatch. }
+    destruct (o_out o) as [h vs hp| |] eqn:Eout.
+    - destruct Hout as (r' & capt & Hin' & <- & Hc' & -> & -> & Hpost).
+      destruct (cands_in _ _ _ _ Hin') as (Hr' & Hme' & _).
+      exists o, r', (map (rename (opt_name (catchall_name (r_pat r')))) capt).
+      repeat split; try assumption; try reflexivity.
+      + rewrite Hc'. discriminate.
+      + intros ->. rewrite Hp in *. rewrite Hcap in Hc'. injection Hc' as <-.
+        unfold wf_ipat in Hw. apply andb_true_iff in Hw as [Hw _]. unfold returned.
+        destruct (forallb neutral (ivals ip));
+          apply rename_icaps; (apply wf_pattern_seg_wf || apply wf_pattern_ca_last); assumption.
+    - destruct Hout as [Hout _]. rewrite Hout in Hc. contradiction.
+    - destruct Hout as [Hout _]. rewrite Hout in Hc. contradiction.
+  Qed.
+
+  (* dispatch: the handler reached belongs to the matching set; 404/405 iff it is empty *)
+  Lemma dispatch_sound m me wire ar ap o h vs hp : wf_mux m ->
+    serve pick m me wire [] ar ap = Some o -> o_out o = Handled h vs hp ->
+    exists path raw r, set_path wire = Some (path, raw) /\
+      In r (cands m me (path_segs (route_path path raw))) /\ r_h r = h.
+  Proof.
+    intros Hm Es Eo. pose proof (serve_spec pick pick_sound m me wire ar ap Hm) as Hs.
+    destruct (set_path wire) as [[path raw]|]; [|congruence].
+    destruct Hs as (o' & Eo' & _ & Hout). rewrite Es in Eo'. injection Eo' as <-. rewrite Eo in Hout.
+    destruct Hout as (r & _ & Hin & Hh & _). now exists path, raw, r.
+  Qed.
+
+  Lemma dispatch_unhandled_iff m me wire ar ap o path raw : wf_mux m ->
+    serve pick m me wire [] ar ap = Some o -> set_path wire = Some (path, raw) ->
+    let segs := path_segs (route_path path raw) in
+    ((exists h vs hp, o_out o = Handled h vs hp) <-> cands m me segs <> []) /\
+    (o_out o = NotFound (response_encoder ar ap) <-> cands m me segs = [] /\ other_method_matches m segs = false) /\
+    (o_out o = MethodNotAllowed <-> cands m me segs = [] /\ other_method_matches m segs = true).
+  Proof.
+    intros Hm Es Esp. pose proof (serve_spec pick pick_sound m me wire ar ap Hm) as Hs. rewrite Esp in Hs.
+    destruct Hs as (o' & Eo' & _ & Hout). rewrite Es in Eo'. injection Eo' as <-. cbv zeta.
+    destruct (o_out o) as [h vs hp|e|].
+    - destruct Hout as (r & _ & Hin & _). repeat split; try discriminate.
+      + intros _ E. rewrite E in Hin. contradiction.
+      + now exists h, vs, hp.
+      + intros [E _]. rewrite E in Hin. contradiction.
+      + intros [E _]. rewrite E in Hin. contradiction.
+    - destruct Hout as (Hc & Ho & ->). repeat split; try assumption; try discriminate.
+      + intros (h & vs & hp & E). discriminate.
+      + intro H. contradiction.
+      + intros [_ E]. congruence.
+    - destruct Hout as (Hc & Ho). repeat split; try assumption; try discriminate.
+      + intros (h & vs & hp & E). discriminate.
+      + intro H. contradiction.
+      + intros [_ E]. congruence.
+  Qed.
+
+  Lemma dispatch_unique m me wire ar ap o path raw r : wf_mux m ->
+    serve pick m me wire [] ar ap = Some o -> set_path wire = Some (path, raw) ->
+    cands m me (path_segs (route_path path raw)) = [r] ->
+    exists vs, o_out o = Handled (r_h r) vs (goa_render (r_pat r)) /\ o_post o = goa_render (r_pat r).
+  Proof.
+    intros Hm Es Esp Hc. pose proof (serve_spec pick pick_sound m me wire ar ap Hm) as Hs. rewrite Esp in Hs.
+    destruct Hs as (o' & Eo' & _ & Hout). rewrite Es in Eo'. injection Eo' as <-.
+    destruct (o_out o) as [h vs hp|e|].
+    - destruct Hout as (r' & capt & Hin & <- & _ & _ & -> & Hpost). rewrite Hc in Hin. destruct Hin as [<-|[]].
+      now exists vs.
+    - destruct Hout as [E _]. rewrite E in Hc. discriminate.
+    - destruct Hout as [E _]. rewrite E in Hc. discriminate.
+  Qed.
+End Built.
+
+(* exactly which built requests give their values back *)
+Lemma returned_iff ip :
+  returned ip = values_of ip <-> forallb neutral (ivals ip) = false \/ forallb stable (ivals ip) = true.
+Proof.
+  unfold returned, ivals. destruct (forallb neutral (map snd (values_of ip))) eqn:N.
+  - split.
+    + intro E. right. apply forallb_forall. intros v Hv. apply in_map_iff in Hv as ([k v'] & <- & Hin).
+      unfold stable. apply beq_eq. cbn [snd].
+      assert (H : forall l, map (fun nv : bstr * bstr => (fst nv, unescape_or_id (snd nv))) l = l ->
+                            forall kv, In kv l -> unescape_or_id (snd kv) = snd kv).
+      { induction l as [|a l IH]; [contradiction|]. cbn [map]. intros El kv [<-|Hk].
+        - injection El as E1 _. destruct a. cbn in *. congruence.
+        - injection El as _ E2. now apply IH. }
+      exact (H _ E _ Hin).
+    + intros [D|S]; [discriminate|]. rewrite forallb_forall in S.
+      rewrite <- (map_id (values_of ip)) at 2. apply map_ext_in. intros [k v] Hin. cbn [fst snd]. f_equal.
+      apply beq_eq. apply S. apply in_map_iff. now exists (k, v).
+  - split; [now left|]. intros _. rewrite <- (map_id (values_of ip)) at 2. apply map_ext. now intros [k v].
+Qed.
+
+Lemma stable_no_pct v : ~ In pct v -> stable v = true.
+Proof.
+  intro H. unfold stable, unescape_or_id, unescape.
+  assert (F : feed PathSeg UNormal v = Some (UNormal, v)).
+  { induction v as [|c r IH]; [reflexivity|]. cbn [feed].
+    destruct (Byte.eqb c pct) eqn:E; [apply byte_eqb_eq in E; subst; exfalso; apply H; now left|].
+    rewrite IH; [reflexivity|]. intro Hr. apply H. now right. }
+  rewrite F. apply beq_refl.
+Qed.
+
+(* ------------------------------------------------------- pattern resolution *)
+
+Lemma resolve_registered m r : wf_mux m -> In r (routes m) ->
+  resolve_wildcard m (r_meth r) (chi_render (r_pat r)) = goa_render (r_pat r).
+Proof.
+  intros [Hr _] Hin. destruct (Hr r Hin) as [Hw Hg]. unfold resolve_wildcard. rewrite Hg.
+  pose proof (wf_pattern_ca_last _ Hw) as Hc. destruct (catchall_name (r_pat r)) as [n|] eqn:Cn.
+  - now apply resolve_render.
+  - now apply render_no_catchall.
+Qed.
+
+(* ------------------------------------ a mux with one route: no precedence left *)
+
+Definition sound (pick : list bstr -> list route -> option route) : Prop :=
+  forall segs cs, match pick segs cs with Some r => In r cs | None => cs = [] end.
+
+Lemma first_pick_sound : sound first_pick.
+Proof. intros segs [|r cs]; cbn; auto. Qed.
+
+Section Single.
+  Variable pick : list bstr -> list route -> option route.
+  Hypothesis pick_sound : sound pick.
+  Variable m : mux.
+  Variable r0 : route.
+  Hypothesis single : routes m = [r0].
+
+  Lemma pick_single me segs : pick segs (cands m me segs) = first_pick segs (cands m me segs).
+  Proof.
+    pose proof (pick_sound segs (cands m me segs)) as H. unfold cands in *. rewrite single in *. cbn [filter] in *.
+    destruct (method_eqb (r_meth r0) me && is_some (matches (r_pat r0) segs)); cbn [first_pick hd_error].
+    - destruct (pick segs [r0]) as [r|]; [destruct H as [<-|[]]; reflexivity|discriminate].
+    - destruct (pick segs []) as [r|]; [contradiction|reflexivity].
+  Qed.
+
+  Lemma find_route_single c me rp : find_route pick m c me rp = find_route first_pick m c me rp.
+  Proof. unfold find_route. now rewrite pick_single. Qed.
+
+  Lemma ensure_context_single c me p : ensure_context pick m c me p = ensure_context first_pick m c me p.
+  Proof. unfold ensure_context. now rewrite find_route_single. Qed.
+
+  Lemma resolve_pattern_single c me p : resolve_pattern pick m c me p = resolve_pattern first_pick m c me p.
+  Proof. unfold resolve_pattern. now rewrite ensure_context_single. Qed.
+
+  Lemma vars_single c me p : vars pick m c me p = vars first_pick m c me p.
+  Proof. unfold vars. now rewrite ensure_context_single. Qed.
+
+  Lemma run_pre_single me p pre : forall c, run_pre pick m c me p pre = run_pre first_pick m c me p pre.
+  Proof.
+    induction pre as [|b pre IH]; intro c; [reflexivity|]. destruct b; cbn [run_pre]; [|apply IH].
+    rewrite resolve_pattern_single. destruct (resolve_pattern first_pick m c me p) as [c1 pp]. now rewrite IH.
+  Qed.
+
+  Lemma serve_single me wire pre ar ap : serve pick m me wire pre ar ap = serve first_pick m me wire pre ar ap.
+  Proof.
+    unfold serve. destruct (set_path wire) as [[path raw]|]; [|reflexivity].
+    rewrite run_pre_single. destruct (run_pre first_pick m ctx0 me path (firstn (length (mws m)) pre)) as [c1 pres].
+    rewrite find_route_single. destruct (find_route first_pick m c1 me (route_path path raw)) as [c2 [r|]].
+    - rewrite vars_single. destruct (vars first_pick m c2 me path) as [c3 vs].
+      rewrite resolve_pattern_single. destruct (resolve_pattern first_pick m c3 me path) as [c4 hp].
+      now rewrite resolve_pattern_single.
+    - now rewrite resolve_pattern_single.
+  Qed.
+End Single.
+
+(* ------------------------------------------------------- the not-found body *)
+
+Lemma text_encoder_iff ar ap h :
+  response_encoder ar ap = EText h <->
+  (ar = (if h then MHtml else MPlain)) \/ (ar = MOther /\ ap = Some (if h then MHtml else MPlain)).
+Proof.
+  destruct h, ar; cbn; try (split; [discriminate|intros [H|[H _]]; discriminate]);
+    try (split; [now left|reflexivity]);
+    (split; [intro H; right; split; [reflexivity|]; destruct ap as [[]|]; cbn in H; try discriminate; reflexivity
+            |intros [H|[_ ->]]; [discriminate|reflexivity]]).
+Qed.
+
+Lemma notfound_body_wellformed ar ap :
+  (forall h, response_encoder ar ap <> EText h) -> notfound_body (response_encoder ar ap) = Some notfound_error.
+Proof. intro H. destruct (response_encoder ar ap) eqn:E; try reflexivity. exfalso. now apply (H html). Qed.
+
+(* ----------------------------------------------------------- Use and Handle *)
+
+Lemma use_after_handle f me p h m : use f (handle me p h m) = None.
+Proof. reflexivity. Qed.
+
+Fixpoint uses (fs : list nat) (m : mux) : option mux :=
+  match fs with
+  | [] => Some m
+  | f :: r => match use f m with Some m' => uses r m' | None => None end
+  end.
+
+Lemma uses_pending fs : forall m l, pending m = Some l ->
+  exists m', uses fs m = Some m' /\ pending m' = Some (l ++ fs) /\ mws m' = mws m /\ routes m' = routes m /\ wild m' = wild m.
+Proof.
+  induction fs as [|f fs IH]; intros m l Hp.
+  - exists m. rewrite app_nil_r. auto.
+  - cbn [uses]. unfold use. rewrite Hp.
+    destruct (IH {| pending := Some (l ++ [f]); mws := mws m; routes := routes m; wild := wild m |} (l ++ [f]) eq_refl)
+      as (m' & E & P & M & R & W).
+    exists m'. rewrite <- app_assoc in P. auto.
+Qed.
+
+(* middlewares given to Use before the first Handle are installed by it, in order *)
+Lemma use_then_handle fs me p h : exists m', uses fs new_muxer = Some m' /\ mws (handle me p h m') = fs.
+Proof.
+  destruct (uses_pending fs new_muxer [] eq_refl) as (m' & E & P & M & _). exists m'. split; [assumption|].
+  cbn [handle mws]. rewrite P, M. reflexivity.
+Qed.
+
+(* ------------------------------------------------------------- witnesses *)
+
+Definition b_u : bstr := [x75].                       (* "u" *)
+Definition b_f : bstr := [x66].                       (* "f" *)
+Definition b_id : bstr := [x69; x64].                 (* "id" *)
+Definition b_p : bstr := [x70].                       (* "p" *)
+Definition b_a : bstr := [x61].
+Definition b_b : bstr := [x62].
+Definition v_pct41 : bstr := [x25; x34; x31].         (* "%41" *)
+Definition v_A : bstr := [x41].                       (* "A" *)
+Definition v_a_b : bstr := [x61; x2f; x62].           (* "a/b" *)
+
+(* GET /u/{id} with the value "%41": the request is /u/%2541, Vars returns "A" *)
+Definition w_ip : ipat := [ILit b_u; IVar b_id v_pct41].
+Definition w_mux : mux := handle GET (pat_of w_ip) 0 new_muxer.
+
+Lemma w_ip_facts : wf_ipat w_ip = true /\ values_of w_ip = [(b_id, v_pct41)] /\
+  captured (pat_of w_ip) (build_url w_ip) = Some [(b_id, v_A)] /\ icaps idv w_ip = [(b_id, v_pct41)].
+Proof. vm_compute. auto. Qed.
+
+Lemma w_mux_reachable : reachable w_mux.
+Proof. apply reach_handle; [apply reach_new|reflexivity]. Qed.
+
+Lemma double_unescape_served pick : sound pick -> forall ar ap,
+  exists o, serve pick w_mux GET (build_url w_ip) [] ar ap = Some o /\
+            o_out o = Handled 0 [(b_id, v_A)] (goa_render (pat_of w_ip)).
+Proof.
+  intros Hs ar ap. rewrite (serve_single pick Hs w_mux _ eq_refl). eexists. split; vm_compute; reflexivity.
+Qed.
+
+(* Use(mw); Handle(GET, "/f/{*p}"); the middleware calls ResolvePattern before next; GET /f/a/b *)
+Definition w_mux2 : mux :=
+  match use 0 new_muxer with Some m => handle GET [Lit b_f; CatchAll b_p] 0 m | None => new_muxer end.
+Definition w_wire2 : bstr := [x2f; x66; x2f; x61; x2f; x62].                (* "/f/a/b" *)
+Definition w_pat2_goa : bstr := [x2f; x66; x2f; x7b; x2a; x70; x7d].         (* "/f/{*p}" *)
+Definition w_pat2_seen : bstr := [x2f; x66; x2f; x66; x2f; x2a].             (* "/f/f/*" *)
+
+Lemma w_mux2_reachable : reachable w_mux2.
+Proof.
+  unfold w_mux2. destruct (use 0 new_muxer) as [m|] eqn:E; [|discriminate].
+  apply reach_handle; [|reflexivity]. eapply reach_use; [apply reach_new|exact E].
+Qed.
+
+Lemma resolve_before_routing_served pick : sound pick -> forall ar ap,
+  exists o, serve pick w_mux2 GET w_wire2 [true] ar ap = Some o /\
+    o_pre o = [w_pat2_goa] /\ o_out o = Handled 0 [([], v_a_b); ([], v_a_b)] w_pat2_seen /\ o_post o = w_pat2_seen /\
+    goa_render [Lit b_f; CatchAll b_p] = w_pat2_goa /\ routes w_mux2 = [{| r_meth := GET; r_pat := [Lit b_f; CatchAll b_p]; r_h := 0 |}].
+Proof.
+  intros Hs ar ap. rewrite (serve_single pick Hs w_mux2 _ eq_refl). eexists. split; [vm_compute; reflexivity|].
+  vm_compute. repeat split.
+Qed.
+
+(* without the early call the same request is reported correctly *)
+Lemma resolve_after_routing_served pick : sound pick -> forall ar ap,
+  exists o, serve pick w_mux2 GET w_wire2 [false] ar ap = Some o /\
+    o_pre o = [] /\ o_out o = Handled 0 [(b_p, v_a_b)] w_pat2_goa /\ o_post o = w_pat2_goa.
+Proof.
+  intros Hs ar ap. rewrite (serve_single pick Hs w_mux2 _ eq_refl). eexists. split; [vm_compute; reflexivity|].
+  vm_compute. repeat split.
+Qed.
+
+(* Use(mw); Handle(GET,"/u/{id}") #0; Handle(GET,"/u/{a}/{b}") #1; GET /u/a%2Fb: the early
+   ResolvePattern matches the decoded path /u/a/b and reports route #1, chi then routes
+   the raw path to #0 *)
+Definition w_mux3 : mux :=
+  match use 0 new_muxer with
+  | Some m => handle GET [Lit b_u; Var b_a; Var b_b] 1 (handle GET [Lit b_u; Var b_id] 0 m)
+  | None => new_muxer
+  end.
+Definition w_wire3 : bstr := [x2f; x75; x2f; x61; x25; x32; x46; x62].       (* "/u/a%2Fb" *)
+
+Lemma w_mux3_reachable : reachable w_mux3.
+Proof.
+  unfold w_mux3. destruct (use 0 new_muxer) as [m|] eqn:E; [|discriminate].
+  apply reach_handle; [|reflexivity]. apply reach_handle; [|reflexivity]. eapply reach_use; [apply reach_new|exact E].
+Qed.
+
+Lemma resolve_decoded_path_served : forall ar ap,
+  exists o, serve first_pick w_mux3 GET w_wire3 [true] ar ap = Some o /\
+    o_pre o = [goa_render [Lit b_u; Var b_a; Var b_b]] /\
+    exists vs hp, o_out o = Handled 0 vs hp /\ vs = [(b_a, b_a); (b_b, b_b); (b_id, v_a_b)] /\
+                  hp <> goa_render [Lit b_u; Var b_id].
+Proof.
+  intros ar ap. eexists. split; [vm_compute; reflexivity|]. split; [vm_compute; reflexivity|].
+  eexists. eexists. split; [vm_compute; reflexivity|]. split; [reflexivity|]. vm_compute. discriminate.
+Qed.
+
+(* non-vacuity material: three routes, a built request with an encoded slash and an empty catch-all *)
+Definition ex_ip : ipat := [ILit b_u; IVar b_id v_a_b; ICatchAll b_p []].
+Definition ex_mux : mux :=
+  handle POST [Lit b_u; Var b_a] 2 (handle GET (pat_of ex_ip) 1 (handle GET [Lit []] 0 new_muxer)).
+Lemma ex_facts :
+  wf_ipat ex_ip = true /\ reachable ex_mux /\ length (routes ex_mux) = 3 /\
+  exists o, serve first_pick ex_mux GET (build_url ex_ip) [] MEmpty None = Some o /\
+            o_out o = Handled 1 [(b_id, v_a_b); (b_p, [])] (goa_render (pat_of ex_ip)).
+Proof.
+  split; [reflexivity|]. split; [repeat (apply reach_handle; [|reflexivity]); apply reach_new|].
+  split; [reflexivity|]. eexists. split; vm_compute; reflexivity.
+Qed.
